@@ -274,7 +274,7 @@ def _unshift(db, chk):
         ph = E.col("ph")
         chk.ob(rule, f"[name col={has_name}] phase is the counter phase 'C'", ph == T.C("C"), where, found=T.show(ph), accepted="'C'")
         a = E.col("args")
-        okargs = a[0] in ("mapf",) and ("dict", ((T.C("CN"), T.col(S, "CNT")),)) in T.find(a, lambda s: s[0] == "dict")
+        okargs = ("dict", ((T.C("CN"), T.col(S, "CNT")),)) in ([a] + T.find(a, lambda s: s[0] == "dict")) and a[0] in ("mapf", "dict")
         chk.ob(rule, f"[name col={has_name}] args = {{counter_name: value of the counter column}}", okargs, where, found=T.show(a)[:160], accepted="{counter_name: series[counter_col]}")
         check_term(chk, rule, f"[name col={has_name}] pid is the series' pid", where, E.col("pid"), [T.col(S, "pid")])
         nm = E.col("name")
